@@ -14,6 +14,17 @@ _LEVEL = ('Static necessary-condition checking: each rule is exact on its struct
           'claimed are those whose truth is visible in the shape of the code.')
 
 RULEDOC = {
+ 'SA-CSUM.fresh.eltorito': 'an El Torito checksum stored at construction covers only fields no later method rewrites; one stored elsewhere is recomputed before every use',
+ 'SA-CSUM.fresh.hybrid': 'a GPT checksum kept in object state is recomputed in the call that uses it (a memoised CRC goes stale when update_efi/update_mac move the partitions)',
+ 'SA-CSUM.fresh.udf': 'a UDF tag CRC/checksum kept in object state is recomputed in the call that uses it',
+ 'SA-EXC.format': 'every %-formatting with a constant format string has as many arguments as directives and no tuple-valued single operand (e.args), so building a message never raises TypeError',
+ 'SA-GATE.d1': 'the language _check_d1_characters accepts, extracted from its loop / set / regex form, is exactly (A-Z 0-9 _)*, and both identifier predicates apply it whenever the level is below 4',
+ 'SA-GATE.d1.total': '_check_d1_characters accepts every string over the d-characters (including the empty one), so mangler output is never refused',
+ 'SA-GUARD.layout': 'the guard modify_file_in_place refuses on is raised on every normal path of every method that marks the layout stale, lowered only at re-initialisation, and tested before every write',
+ 'SA-IDENT.sanitized': 'after an identity value got a sanitised copy (extent_to_use: 0 for empty files and symlinks) every ==/in/subscript decision in that block uses the copy',
+ 'SA-SIB.tool_symlink': 'pycdlib-genisoimage hands the same verbatim os.readlink() text to the Rock Ridge and the UDF view of a symlink',
+ 'SA-SNAPSHOT.facade': 'a facade stores nothing copied out of the PyCdlib object (fields PyCdlib rewrites, results of its methods), only the object itself',
+ 'SA-VBM.prevalidate': 'an up-front resolution statement (pure value-returning resolver called for its refusal) runs under every parameter condition under which the parameter is later used',
  'SA-ACCT.delta': 'a returned block/byte delta subtracts the same measure before and after the adjustment, and grow/shrink siblings use the same measure',
  'SA-ACCT.dropped': 'the delta returned by an accounting producer is never discarded on its way to _finish_add/_finish_remove',
  'SA-ACCT.inverse': 'grow and shrink operations of one class adjust the same attributes by inverse amounts of the same unit (never overwrite)',
@@ -57,7 +68,7 @@ RULEDOC = {
  'SA-OWN.num_udf': 'Inode.num_udf moves only with UDF links',
  'SA-OWN.rr_children': 'rr_children is mutated only next to children',
  'SA-OWN.space_size': 'the volume space size is written only by the accounting primitives',
- 'SA-PAIR.link_inode': 'linking a record and registering it with its inode happen together',
+ 'SA-PAIR.link_inode': 'pointing a record at an inode and registering it in the inode\'s linked_records happen together, on the same paths (one half dominates or post-dominates the other)',
  'SA-PAIR.offset_cache': 'every mutation of children is followed by the offset recomputation',
  'SA-PAIR.removal_cache': 'removals clear the path lookup caches',
  'SA-PAIR.rr_ce_slot': 'every Rock Ridge record linked into a directory is handed to _update_rr_ce_entry (gets its continuation slot)',
